@@ -1,0 +1,23 @@
+//go:build verif
+
+package astisub
+
+// Pass-through wrappers for the TTML time-expression parser (used only by the verification harness).
+
+// VerifTTMLDuration parses a TTML time expression with TTMLInDuration.UnmarshalText and resolves it with
+// TTMLInDuration.duration under the given frame rate and tick rate; it returns nanoseconds.
+func VerifTTMLDuration(text []byte, framerate, tickrate int) (int64, error) {
+	var d TTMLInDuration
+	if err := d.UnmarshalText(text); err != nil {
+		return 0, err
+	}
+	d.framerate = framerate
+	d.tickrate = tickrate
+	return int64(d.duration()), nil
+}
+
+// VerifTTMLFormatDuration is TTMLOutDuration.MarshalText.
+func VerifTTMLFormatDuration(ns int64) string {
+	b, _ := TTMLOutDuration(ns).MarshalText()
+	return string(b)
+}
